@@ -367,7 +367,7 @@ func Run(w *vt.Writer, mkClient, mkServer Maker, sc *Script, after func(l *wire.
 			}
 		}
 	}
-	serverStarted := false
+	serverStarted, clientStarted := false, false
 	heldFirst := -1 // lock-step + HoldFirstWrite: size of the server write already made during the handshake phase
 	startServerSide := func() {
 		sv.app = sr.c
@@ -424,6 +424,18 @@ func Run(w *vt.Writer, mkClient, mkServer Maker, sc *Script, after func(l *wire.
 				ev["err"] = cr.err.Error()
 			}
 			w.Emit(ev)
+			// symmetric transports (obfs2, obfs3): the client finishes its handshake without the server having read
+			// the client's; with HoldFirstWrite on c2s the client application writes at once, so that the tail of its
+			// handshake (padding) and its first data reach the server coalesced
+			if cr.err == nil && sc.C2S.HoldFirstWrite && !sc.Lock {
+				cl.app = cr.c
+				res.ClientApp = cr.c
+				readers.Add(1)
+				go startReader(cl, "s2c")
+				writers.Add(1)
+				go startWriter(cl, &writers, nil, nil)
+				clientStarted = true
+			}
 		case <-timeout:
 			w.Emit(vt.Ev{"event": "DriverDead", "why": "handshake did not return"})
 			res.DriverDead = true
@@ -431,19 +443,22 @@ func Run(w *vt.Writer, mkClient, mkServer Maker, sc *Script, after func(l *wire.
 		}
 	}
 	if sr.err != nil || cr.err != nil {
-		if sr.c != nil {
+		// (a failed maker's connection value is meaningless - it may be a typed nil - and must not be touched)
+		if sr.err == nil && sr.c != nil {
 			sr.c.Close()
 		}
-		if cr.c != nil {
+		if cr.err == nil && cr.c != nil {
 			cr.c.Close()
 		}
 		return finish()
 	}
 	res.HandshakeOK = true
-	cl.app = cr.c
-	res.ClientApp = cr.c
-	readers.Add(1)
-	go startReader(cl, "s2c")
+	if !clientStarted {
+		cl.app = cr.c
+		res.ClientApp = cr.c
+		readers.Add(1)
+		go startReader(cl, "s2c")
+	}
 	_ = serverStarted
 
 	quiesce := func() bool {
@@ -538,8 +553,10 @@ func Run(w *vt.Writer, mkClient, mkServer Maker, sc *Script, after func(l *wire.
 		}
 		_, _ = cTurn, sTurn
 	} else {
-		writers.Add(1)
-		go startWriter(cl, &writers, nil, nil)
+		if !clientStarted {
+			writers.Add(1)
+			go startWriter(cl, &writers, nil, nil)
+		}
 		if !sc.S2C.HoldFirstWrite {
 			writers.Add(1)
 			go startWriter(sv, &writers, nil, nil)
